@@ -28,6 +28,9 @@ def micro_cases(ctx):
                 cases.append('arraddback %s %d %d' % (c, n, k))
                 if n >= 1:
                     cases.append('copyctor %s %d %d' % (c, n, k))
+                if n <= 4:                             # SetCount(count, item): shrink / in place / with growth
+                    for (cap, newc) in ((n + 2, max(0, n - 1)), (n + 2, n + 2), (n, n + 2), (n + 1, n + 3)):
+                        cases.append('setcnt %s %d %d %d %d' % (c, n, k, cap, newc))
                 if n <= 4:
                     cases.append('intshrink %s %d %d' % (c, n, k))
         for n, npos in ((2, 3), (4, 5)):          # real TreeSet<TreeNode<4,2>> inserts into a full root leaf: grow / split
@@ -39,6 +42,8 @@ def micro_cases(ctx):
                 for index in range(n):
                     for k in (-1, 0, 1):
                         cases.append('noderemove N %d %d %d' % (n, k, index))
+        for k in range(-1, 6):                     # real HashSet<LimP4>::Insert into a set without buckets (pvAddGrow, !hasBuckets)
+            cases.append('hashfirst %s 1 %d' % (c, k))
         for n in range(1, 4):                      # real BucketLimP4::AddCrt into a block with a free slot
             for k in (-1, 0, 1):
                 cases.append('bucketadd %s %d %d' % (c, n, k))
